@@ -398,6 +398,8 @@ func loadGroupStateCoq(l *loadTr, files []*ast.File) (string, error) {
 		}
 	}
 	fmt.Fprintf(&sb, "Definition gen_loadRuleGroup_rules : list string :=\n  %s.\n", coqStringList(loop))
+	// ... and all of its statements: the import table of a group is entered before and left after its rules
+	fmt.Fprintf(&sb, "Definition gen_body_loadRuleGroup : list string :=\n  %s.\n", coqStringList(l.bodyStrings(rg)))
 	for _, name := range []string{"irLoader", "filterInfo"} {
 		fields, err := l.structFields(f, name)
 		if err != nil {
